@@ -804,7 +804,12 @@ func c14ReadTimeout(e *Env) {
 	e.Quiesce()
 	e.Advance(T / 4)
 	e.Quiesce()
-	sc.Deliver(req("m1", 2))
+	together := t.Chance(1, 2) // m2 arrives in the same segment as m1
+	if together {
+		sc.Deliver(append(req("m1", 2), req("m2", 3)...))
+	} else {
+		sc.Deliver(req("m1", 2))
+	}
 	e.Quiesce()
 	mu.Lock()
 	parked, ch := gate != nil, cn
@@ -829,7 +834,9 @@ func c14ReadTimeout(e *Env) {
 		return
 	}
 	release()
-	sc.Deliver(req("m2", 3))
+	if !together {
+		sc.Deliver(req("m2", 3))
+	}
 	e.Quiesce()
 	mu.Lock()
 	got := strings.Join(entered, ",")
